@@ -266,6 +266,34 @@ func runC12(c *Ctx, w *World, r *Report) {
 		if nW == 0 {
 			badF = "no bit write found"
 		}
+		// a result word is only ever OR-ed into: OfMany hands Of a list that need not be ascending (a position may lie
+		// beyond the size of its sub-bitmap), so a later position can fall into a word that already holds bits; a plain
+		// assignment of a word (bits collected in a register, stored once per run) loses them
+		eachInstr(fn, func(ins ssa.Instruction) {
+			st, ok := ins.(*ssa.Store)
+			if !ok {
+				return
+			}
+			ia, ok := st.Addr.(*ssa.IndexAddr)
+			if !ok || !isWordSlice(ia.X.Type()) || containerRole(ia.X) != "local" {
+				return
+			}
+			if al, isAl := addrBase(ia.X).(*ssa.Alloc); isAl && strings.Contains(al.Comment, "varargs") {
+				return
+			}
+			a, b, isOr := asBin(st.Val, token.OR)
+			okRMW := false
+			if isOr {
+				for _, o := range []ssa.Value{a, b} {
+					if c, i, isLd := asElemLoad(o); isLd && fa.VN(c) == fa.VN(ia.X) && fa.Lin(i).Eq(fa.Lin(ia.Index)) {
+						okRMW = true
+					}
+				}
+			}
+			if !okRMW && badF == "" {
+				badF = "the result word stored at " + w.InstrPos(st) + " is assigned, not OR-ed into (words[k] |= ..): bits that an earlier position put into the same word are lost when the positions are not ascending, which the list OfMany builds need not be"
+			}
+		})
 		r.Check(badF == "", "R-FILL", n, w.Pos(fn.Pos()), badF, fmt.Sprintf("%d write site: words[p>>6] |= 1<<(p&63) for p = bitPositions[0..len)", nW))
 	}
 	// ---------- ToArray
